@@ -328,6 +328,16 @@ pub fn for_each_fault(case: &ProgCase, f: &mut dyn FnMut(&str)) {
         let mut dup = toks.clone();
         dup.insert(i, toks[i].clone());
         f(&layout_uniform(&dup, " "));
+        // a run of two or three tokens written twice (one more `, e` / `: e` / `[ e ]`)
+        for w in [2usize, 3] {
+            if i + w <= toks.len() {
+                let mut dup = toks.clone();
+                for (k, t) in toks[i..i + w].iter().enumerate() {
+                    dup.insert(i + w + k, t.clone());
+                }
+                f(&layout_uniform(&dup, " "));
+            }
+        }
         for o in OFFENDERS {
             if toks[i].text == o {
                 continue;
